@@ -14,7 +14,7 @@
 // Each batch of inputs runs in a forked child; the parent learns from a progress pipe which input killed the child.
 //
 // Usage: c17_fuzz run <seed> <quick|thorough> <workdir> <resultfile>
-//        c17_fuzz one <target> <workdir> <inputfile>        (replay of one input, in-process, no fork)
+//        c17_fuzz one <target> <workdir> <inputfile> [<expectation>]       (replay of one input, in-process, no fork)
 // Result file lines:
 //   CASE <target> <index> <verdict> [detail]       verdict: rejected | accepted | inconsistent | killed; a trailing token
 //                                                  `+signed-overflow` = UBSan reported a (non-fatal) signed integer overflow
@@ -29,6 +29,7 @@
 #include "stir/MultipleDataSetHeader.h"
 #include "stir/ProjDataInterfile.h"
 #include "stir/ProjDataFromStream.h"
+#include "stir/ProjDataInfoCylindrical.h"
 #include "stir/SegmentByView.h"
 #include "stir/VoxelsOnCartesianGrid.h"
 #include "stir/ExamInfo.h"
@@ -36,6 +37,7 @@
 #include "stir/Succeeded.h"
 #include "stir/error.h"
 #include <algorithm>
+#include <cstring>
 #include <dirent.h>
 #include <fcntl.h>
 #include <map>
@@ -148,6 +150,210 @@ join_lines(const std::vector<std::string>& l, const std::string& eol = "\n")
   return t;
 }
 
+// ------------------------------------------------------------------------------------------------ size-bearing facts of a header
+// An independent, strict reading of the header text (NOT the library's parser): which sizes and lists does the text give?
+// Used by the oracle "accepted => the object's sizes agree with every list that was given".  The scan gives up (clean = false)
+// whenever the text is not plain enough to be sure what the library should have read: continuation lines, CR, a size-bearing
+// key given twice, a malformed index or value.
+static std::string
+std_key(const std::string& k)
+{
+  std::string r;
+  bool prev_ws = true;
+  for (char c : k)
+    {
+      if (c == ' ' || c == '\t' || c == '_' || c == '!')
+        {
+          if (!prev_ws)
+            r += ' ';
+          prev_ws = true;
+        }
+      else
+        {
+          r += static_cast<char>(tolower(static_cast<unsigned char>(c)));
+          prev_ws = false;
+        }
+    }
+  while (!r.empty() && r.back() == ' ')
+    r.erase(r.size() - 1);
+  return r;
+}
+
+struct KeyLine
+{
+  std::string key, value;
+  int index = 0;
+  bool has_index = false, index_ok = true;
+};
+
+static bool
+split_key_line(const std::string& line, KeyLine& kl)
+{
+  const std::size_t as = line.find(":=");
+  if (as == std::string::npos)
+    return false;
+  std::string k = line.substr(0, as);
+  const std::size_t lb = k.find('[');
+  kl = KeyLine();
+  if (lb != std::string::npos)
+    {
+      kl.has_index = true;
+      std::string ix = k.substr(lb + 1);
+      k = k.substr(0, lb);
+      const std::size_t rb = ix.find(']');
+      if (rb == std::string::npos || ix.find_first_not_of(" \t", rb + 1) != std::string::npos)
+        kl.index_ok = false;
+      else
+        {
+          ix = ix.substr(0, rb);
+          if (ix.empty() || ix.size() > 6 || ix.find_first_not_of("0123456789") != std::string::npos)
+            kl.index_ok = false;
+          else
+            kl.index = std::atoi(ix.c_str());
+        }
+    }
+  kl.key = std_key(k);
+  std::string v = line.substr(as + 2);
+  while (!v.empty() && (v[0] == ' ' || v[0] == '\t'))
+    v.erase(0, 1);
+  while (!v.empty() && (v.back() == ' ' || v.back() == '\t'))
+    v.erase(v.size() - 1);
+  kl.value = v;
+  return true;
+}
+
+static bool
+strict_int(const std::string& v, long& out)
+{
+  std::size_t k = 0;
+  if (k < v.size() && (v[k] == '-' || v[k] == '+'))
+    ++k;
+  if (k >= v.size() || v.size() - k > 9)
+    return false;
+  for (std::size_t j = k; j < v.size(); ++j)
+    if (!isdigit(static_cast<unsigned char>(v[j])))
+      return false;
+  out = std::atol(v.c_str());
+  return true;
+}
+
+// "{a, b, c}" or a single integer (= list of one)
+static bool
+strict_int_list(const std::string& v, std::vector<long>& out)
+{
+  out.clear();
+  long x;
+  if (strict_int(v, x))
+    {
+      out.push_back(x);
+      return true;
+    }
+  if (v.size() < 2 || v[0] != '{' || v.back() != '}')
+    return false;
+  std::string cur;
+  const std::string body = v.substr(1, v.size() - 2);
+  if (body.find_first_not_of(" \t") == std::string::npos)
+    return true; // "{}"
+  for (std::size_t k = 0; k <= body.size(); ++k)
+    if (k == body.size() || body[k] == ',')
+      {
+        while (!cur.empty() && (cur[0] == ' ' || cur[0] == '\t'))
+          cur.erase(0, 1);
+        while (!cur.empty() && (cur.back() == ' ' || cur.back() == '\t'))
+          cur.erase(cur.size() - 1);
+        if (!strict_int(cur, x))
+          return false;
+        out.push_back(x);
+        cur.clear();
+      }
+    else
+      cur += body[k];
+  return true;
+}
+
+struct Facts
+{
+  bool clean = true;
+  std::map<std::pair<std::string, int>, std::string> val;
+  bool has(const std::string& k, int i = 0) const { return val.count(std::make_pair(k, i)) != 0; }
+  std::string raw(const std::string& k, int i = 0) const
+  {
+    auto it = val.find(std::make_pair(k, i));
+    return it == val.end() ? std::string() : it->second;
+  }
+  // false: not given; `clean` is cleared if given but not a plain integer / list
+  bool scalar(const std::string& k, int i, long& out)
+  {
+    if (!has(k, i))
+      return false;
+    std::vector<long> l;
+    if (!strict_int_list(raw(k, i), l) || l.size() != 1 || raw(k, i)[0] == '{')
+      {
+        clean = false;
+        return false;
+      }
+    out = l[0];
+    return true;
+  }
+  bool list(const std::string& k, int i, std::vector<long>& out)
+  {
+    if (!has(k, i))
+      return false;
+    if (!strict_int_list(raw(k, i), out))
+      {
+        clean = false;
+        return false;
+      }
+    return true;
+  }
+};
+
+static Facts
+scan_facts(const std::string& text)
+{
+  static const char* size_keys[] = { "number of dimensions", "matrix size", "matrix axis label", "minimum ring difference per segment",
+                                     "maximum ring difference per segment", "number of time frames", "tof bin order", "number of energy windows",
+                                     "number of projections", "radii", "orbit", "imaging modality", "%sms-mi version number", "image scaling factor",
+                                     "number of image data types", "data offset in bytes", "number of bytes per pixel", "number format" };
+  Facts f;
+  if (text.find('\\') != std::string::npos || text.find('\r') != std::string::npos || text.find('\0') != std::string::npos
+      || text.find("${") != std::string::npos)
+    f.clean = false;
+  bool first = true;
+  for (const std::string& line : split_lines(text))
+    {
+      KeyLine kl;
+      if (!split_key_line(line, kl))
+        {
+          // a size-bearing keyword on a line without ':=' (a damaged assignment): be careful
+          const std::string k = std_key(line.substr(0, line.find('[')));
+          for (const char* sk : size_keys)
+            if (k.compare(0, std::strlen(sk), sk) == 0)
+              f.clean = false;
+          continue;
+        }
+      if (first)
+        {
+          first = false;
+          if (kl.key != "interfile")
+            f.clean = false;
+          continue;
+        }
+      if (kl.key == "end of interfile")
+        break;
+      bool is_size_key = false;
+      for (const char* sk : size_keys)
+        if (kl.key == sk)
+          is_size_key = true;
+      if (!is_size_key)
+        continue;
+      if (!kl.index_ok || f.has(kl.key, kl.index))
+        f.clean = false;
+      f.val[std::make_pair(kl.key, kl.index)] = kl.value;
+    }
+  return f;
+}
+
 // ------------------------------------------------------------------------------------------------ targets
 enum Target
 {
@@ -247,9 +453,105 @@ static const char* PROBE_TEXT = "Probe Parameters :=\n"
                                 "old string := via alias\n"
                                 "End Probe Parameters :=\n";
 
+// "accepted => the sizes of the object agree with every size / list that the header gives" (PET projection data).
+// Returns "" (agrees, or the scan cannot tell) or the text of the contradiction.
+static std::string
+pdfs_facts_check(const std::string& text, const ProjDataFromStream& pd)
+{
+  Facts f = scan_facts(text);
+  if (!f.clean || std_key(f.raw("imaging modality")) == "nucmed" || f.has("%sms-mi version number"))
+    return "";
+  long ndim = 0, S = 0, V = 0, B = 0, T = 0;
+  std::vector<long> A, mn, mx, order;
+  if (!f.scalar("number of dimensions", 0, ndim) || !f.clean)
+    return "";
+  int ax = 0, vw = 0;
+  for (int d = 2; d <= 3; ++d)
+    {
+      if (std_key(f.raw("matrix axis label", d)) == "axial coordinate")
+        ax = d;
+      if (std_key(f.raw("matrix axis label", d)) == "view")
+        vw = d;
+    }
+  const bool hasS = f.scalar("matrix size", 4, S), hasV = vw && f.scalar("matrix size", vw, V), hasB = f.scalar("matrix size", 1, B);
+  const bool hasA = ax && f.list("matrix size", ax, A), hasmn = f.list("minimum ring difference per segment", 0, mn),
+             hasmx = f.list("maximum ring difference per segment", 0, mx);
+  const bool hasT = ndim == 5 && f.scalar("matrix size", 5, T), hasorder = f.list("tof bin order", 0, order);
+  if (!f.clean)
+    return "";
+  const long nseg = pd.get_num_segments();
+  std::ostringstream why;
+  if (hasS && S != nseg)
+    why << "'matrix size [4]' says " << S << " segments; ";
+  if (hasA && static_cast<long>(A.size()) != nseg)
+    why << "'matrix size [" << ax << "]' lists axial positions for " << A.size() << " segments; ";
+  if (hasmn && static_cast<long>(mn.size()) != nseg)
+    why << "'minimum ring difference per segment' has " << mn.size() << " entries; ";
+  if (hasmx && static_cast<long>(mx.size()) != nseg)
+    why << "'maximum ring difference per segment' has " << mx.size() << " entries; ";
+  if (!why.str().empty())
+    return "header contradicts the accepted projection data (" + std::to_string(nseg) + " segments): " + why.str();
+  if (hasA)
+    {
+      std::vector<long> have;
+      for (int seg = pd.get_min_segment_num(); seg <= pd.get_max_segment_num(); ++seg)
+        have.push_back(pd.get_num_axial_poss(seg));
+      std::sort(have.begin(), have.end());
+      std::sort(A.begin(), A.end());
+      if (have != A)
+        return "header contradicts the accepted projection data: the numbers of axial positions per segment differ from the list in 'matrix size [" + std::to_string(ax) + "]'";
+    }
+  if (hasmn && hasmx)
+    {
+      std::vector<std::pair<long, long>> have, given;
+      for (int seg = pd.get_min_segment_num(); seg <= pd.get_max_segment_num(); ++seg)
+        if (const ProjDataInfoCylindrical* c = dynamic_cast<const ProjDataInfoCylindrical*>(pd.get_proj_data_info_sptr().get()))
+          have.push_back(std::make_pair<long, long>(c->get_min_ring_difference(seg), c->get_max_ring_difference(seg)));
+      for (std::size_t k = 0; k < mn.size(); ++k)
+        given.push_back(std::make_pair(std::min(mn[k], mx[k]), std::max(mn[k], mx[k]))); // min > max is swapped by the library, with a warning
+      std::sort(have.begin(), have.end());
+      std::sort(given.begin(), given.end());
+      if (!have.empty() && have != given)
+        return "header contradicts the accepted projection data: the (min, max) ring differences of the segments differ from the two lists of the header";
+    }
+  if (hasV && V != pd.get_num_views())
+    return "header contradicts the accepted projection data: " + std::to_string(pd.get_num_views()) + " views, 'matrix size [" + std::to_string(vw) + "]' says " + std::to_string(V);
+  if (hasB && B != pd.get_num_tangential_poss())
+    return "header contradicts the accepted projection data: " + std::to_string(pd.get_num_tangential_poss()) + " tangential positions, 'matrix size [1]' says " + std::to_string(B);
+  const long ntof = std::max(1, pd.get_num_tof_poss());
+  if (ndim == 5 && hasT && T != ntof)
+    return "header contradicts the accepted projection data: " + std::to_string(ntof) + " TOF bins, 'matrix size [5]' says " + std::to_string(T);
+  if (hasorder && !order.empty() && static_cast<long>(order.size()) != ntof)
+    return "header contradicts the accepted projection data: " + std::to_string(ntof) + " TOF bins, 'TOF bin order' lists " + std::to_string(order.size());
+  return "";
+}
+
+static std::string
+image_facts_check(const std::string& text, const VoxelsOnCartesianGrid<float>& image)
+{
+  Facts f = scan_facts(text);
+  if (!f.clean)
+    return "";
+  long n[4] = { 0, 0, 0, 0 }, ndim = 0;
+  const long have[4] = { 0, image.get_x_size(), image.get_y_size(), image.get_z_size() };
+  if (f.scalar("number of dimensions", 0, ndim) && f.clean && ndim != 3)
+    return "header says 'number of dimensions := " + std::to_string(ndim) + "' but a 3D image was returned";
+  for (int d = 1; d <= 3; ++d)
+    {
+      std::vector<long> l;
+      if (f.list("matrix size", d, l) && f.clean && (l.size() != 1 || l[0] != have[d]))
+        return "header contradicts the accepted image: size " + std::to_string(have[d]) + " in dimension " + std::to_string(d) + ", 'matrix size [" + std::to_string(d)
+               + "]' gives " + f.raw("matrix size", d);
+      (void)n;
+    }
+  if (f.has("matrix size", 4) || f.has("matrix size", 5))
+    return "header gives a 'matrix size [4]' but a 3D image was returned";
+  return "";
+}
+
 // verdict text; throws nothing
 static std::string
-run_target(Target t, const std::string& text, const std::string& workdir)
+run_target(Target t, const std::string& text, const std::string& workdir, bool facts = false)
 {
   try
     {
@@ -282,6 +584,12 @@ run_target(Target t, const std::string& text, const std::string& workdir)
             const long have_abs = file_size(hdr.data_file_name);
             if (std::max(have, have_abs) < need)
               return "inconsistent image accepted but data file has " + std::to_string(std::max(have, have_abs)) + " bytes, header needs " + std::to_string(need);
+            if (facts)
+              {
+                const std::string why = image_facts_check(text, *image);
+                if (!why.empty())
+                  return "inconsistent " + why;
+              }
             return "accepted " + std::to_string(nx) + "x" + std::to_string(ny) + "x" + std::to_string(nz);
           }
           case T_PDFS: {
@@ -294,6 +602,12 @@ run_target(Target t, const std::string& text, const std::string& workdir)
             bins *= std::max(1, pd->get_num_tof_poss());
             if (bins <= 0)
               return "inconsistent projection data accepted with " + std::to_string(bins) + " bins";
+            if (facts)
+              {
+                const std::string why = pdfs_facts_check(text, *pd);
+                if (!why.empty())
+                  return "inconsistent " + why;
+              }
             const long need = static_cast<long>(pd->get_offset_in_stream()) + bins * static_cast<long>(pd->get_data_type_in_stream().size_in_bytes());
             // data file name: from a separate parse of that key alone (the library's own line reading: continuation lines etc.)
             std::string datafile;
@@ -805,6 +1119,254 @@ inputs_for_seed(const Seed& seed, vh::Rng& rng, int nrandom, int nbytes)
   return in;
 }
 
+// ------------------------------------------------------------------------------------------------ "exactly one field inconsistent"
+// Structured mutations of a header written by the library: exactly ONE size-bearing line is changed so that it contradicts the
+// others (a per-segment list with one entry too few / too many, a count that does not match the lists, an index beyond the
+// declared count ...).  Every such header has to be rejected (expect = "must-reject <what>"); headers changed consistently, and
+// the library's own header, have to be accepted (expect = "must-accept <what>").
+struct Structured
+{
+  std::string text, expect;
+};
+
+static int
+find_key_line(const std::vector<std::string>& lines, const std::string& key, int index)
+{
+  for (std::size_t k = 0; k < lines.size(); ++k)
+    {
+      KeyLine kl;
+      if (split_key_line(lines[k], kl) && kl.key == key && kl.index_ok && kl.index == index)
+        return static_cast<int>(k);
+    }
+  return -1;
+}
+
+static std::string
+fmt_list(const std::vector<long>& l)
+{
+  std::string r = "{";
+  for (std::size_t k = 0; k < l.size(); ++k)
+    r += (k ? "," : "") + std::to_string(l[k]);
+  return r + "}";
+}
+
+// lists derived from `l` with a different number of entries (entries dropped at either end, or plausible entries added)
+static std::vector<std::vector<long>>
+other_lengths(const std::vector<long>& l, vh::Rng& rng, bool ring_differences)
+{
+  std::vector<std::vector<long>> r;
+  const long n = static_cast<long>(l.size());
+  for (long drop = 1; drop <= 2 && drop <= n; ++drop)
+    {
+      r.push_back(std::vector<long>(l.begin(), l.end() - drop));
+      r.push_back(std::vector<long>(l.begin() + drop, l.end()));
+    }
+  if (n >= 3)
+    {
+      std::vector<long> mid = l;
+      mid.erase(mid.begin() + rng.range(1, static_cast<int>(n) - 2));
+      r.push_back(mid);
+    }
+  for (long add = 1; add <= 2; ++add)
+    {
+      std::vector<long> back = l, front = l;
+      for (long k = 0; k < add; ++k)
+        {
+          back.push_back(l.empty() ? 1 : (ring_differences ? back.back() + 1 : 1));
+          front.insert(front.begin(), l.empty() ? 1 : (ring_differences ? front.front() - 1 : 1));
+        }
+      r.push_back(back);
+      r.push_back(front);
+    }
+  r.push_back(std::vector<long>());
+  return r;
+}
+
+static std::vector<Structured>
+structured_inputs(const Seed& seed, vh::Rng& rng)
+{
+  std::vector<Structured> out;
+  const std::vector<std::string> lines = split_lines(seed.text);
+  auto with_line = [&](int li, const std::string& newline) {
+    std::vector<std::string> l = lines;
+    l[li] = newline;
+    return join_lines(l);
+  };
+  auto with_extra = [&](const std::vector<std::string>& extra) {
+    // before the last line (END OF INTERFILE)
+    std::vector<std::string> l = lines;
+    l.insert(l.end() - 1, extra.begin(), extra.end());
+    return join_lines(l);
+  };
+  auto key_part = [&](int li) { return lines[li].substr(0, lines[li].find(":=") + 2) + " "; };
+  Facts f = scan_facts(seed.text);
+  if (lines.size() < 4 || !f.clean)
+    return out;
+  const bool pet_pd = seed.t == T_PDFS && seed.name.compare(0, 3, "pd_") == 0;
+  const bool image = seed.t == T_IMAGE;
+  if (pet_pd || image)
+    out.push_back({ seed.text, "must-accept the header as written by the library" });
+  long ndim = 0;
+  f.scalar("number of dimensions", 0, ndim);
+
+  if (pet_pd)
+    {
+      // ---- per-segment lists and the segment count
+      struct ListKey
+      {
+        const char* key;
+        int index;
+        bool rd;
+      };
+      int ax = 2;
+      if (std_key(f.raw("matrix axis label", 3)) == "axial coordinate")
+        ax = 3;
+      const ListKey lk[] = { { "minimum ring difference per segment", 0, true }, { "maximum ring difference per segment", 0, true }, { "matrix size", ax, false } };
+      for (const ListKey& k : lk)
+        {
+          const int li = find_key_line(lines, k.key, k.index);
+          std::vector<long> l;
+          if (li < 0 || !f.list(k.key, k.index, l))
+            continue;
+          for (const std::vector<long>& v : other_lengths(l, rng, k.rd))
+            out.push_back({ with_line(li, key_part(li) + fmt_list(v)),
+                            std::string("must-reject '") + k.key + (k.index ? " [" + std::to_string(k.index) + "]" : "") + "' has " + std::to_string(v.size())
+                                + " entries, the other per-segment lists and 'matrix size [4]' say " + std::to_string(l.size()) });
+        }
+      long S = 0;
+      const int ls = find_key_line(lines, "matrix size", 4);
+      if (ls >= 0 && f.scalar("matrix size", 4, S))
+        for (long d : { -2L, -1L, 1L, 2L })
+          if (S + d >= 0)
+            out.push_back({ with_line(ls, key_part(ls) + std::to_string(S + d)),
+                            "must-reject 'matrix size [4]' says " + std::to_string(S + d) + " segments, the per-segment lists have " + std::to_string(S) + " entries" });
+      // ---- TOF
+      long T = 0;
+      if (ndim == 5 && f.scalar("matrix size", 5, T))
+        {
+          std::vector<long> order;
+          for (long k = 0; k < T; ++k)
+            order.push_back(k - T / 2);
+          out.push_back({ with_extra({ "TOF bin order := " + fmt_list(order) }), "must-accept 'TOF bin order' with one entry per TOF bin" });
+          for (const std::vector<long>& v : other_lengths(order, rng, true))
+            if (!v.empty())
+              out.push_back({ with_extra({ "TOF bin order := " + fmt_list(v) }),
+                              "must-reject 'TOF bin order' has " + std::to_string(v.size()) + " entries for " + std::to_string(T) + " TOF bins" });
+          const int lt = find_key_line(lines, "matrix size", 5);
+          if (lt >= 0)
+            for (long d : { -2L, -1L, 1L, 2L, 4L })
+              if (T + d >= 1)
+                out.push_back({ with_line(lt, key_part(lt) + std::to_string(T + d)),
+                                "must-reject 'matrix size [5]' says " + std::to_string(T + d) + " TOF bins, scanner and TOF mashing factor give " + std::to_string(T) });
+          const int lm = find_key_line(lines, "tof mashing factor", 0);
+          if (lm >= 0 && T > 1)
+            out.push_back({ with_line(lm, key_part(lm) + std::to_string(T)), "must-reject 'TOF mashing factor' changed so that the number of TOF bins no longer is " + std::to_string(T) });
+        }
+    }
+  if (image)
+    {
+      for (int d = 1; d <= 3; ++d)
+        {
+          const int li = find_key_line(lines, "matrix size", d);
+          long n = 0;
+          if (li < 0 || !f.scalar("matrix size", d, n))
+            continue;
+          out.push_back({ with_line(li, key_part(li) + "{" + std::to_string(n) + "," + std::to_string(n) + "}"),
+                          "must-reject 'matrix size [" + std::to_string(d) + "]' of an image is a list of two sizes" });
+          out.push_back({ with_line(li, key_part(li) + "{}"), "must-reject 'matrix size [" + std::to_string(d) + "]' is an empty list" });
+          for (long m : { n + 1, 2 * n, n + 7 })
+            out.push_back({ with_line(li, key_part(li) + std::to_string(m)),
+                            "must-reject 'matrix size [" + std::to_string(d) + "]' enlarged to " + std::to_string(m) + ": the data file is too short" });
+          std::vector<std::string> l = lines;
+          l.erase(l.begin() + li);
+          out.push_back({ join_lines(l), "must-reject 'matrix size [" + std::to_string(d) + "]' is missing" });
+        }
+      long nz = 0;
+      if (f.scalar("matrix size", 3, nz))
+        {
+          std::vector<long> ones(nz, 1);
+          out.push_back({ with_extra({ "image scaling factor[1] := " + fmt_list(ones) }), "must-accept one 'image scaling factor' per plane" });
+          for (const std::vector<long>& v : other_lengths(ones, rng, false))
+            if (v.size() != 1 && !v.empty())
+              out.push_back({ with_extra({ "image scaling factor[1] := " + fmt_list(v) }),
+                              "must-reject " + std::to_string(v.size()) + " image scaling factors for " + std::to_string(nz) + " planes" });
+        }
+    }
+  if (pet_pd || image)
+    {
+      // ---- number of dimensions against the sizes given
+      const int ld = find_key_line(lines, "number of dimensions", 0);
+      if (ld >= 0 && ndim > 0)
+        for (long d : { -2L, -1L, 1L, 2L })
+          if (ndim + d >= 1)
+            out.push_back({ with_line(ld, key_part(ld) + std::to_string(ndim + d)),
+                            "must-reject 'number of dimensions := " + std::to_string(ndim + d) + "' with sizes and labels given for " + std::to_string(ndim) + " dimensions" });
+      // ---- counts against vectorised per-frame / per-window keys
+      const int lf = find_key_line(lines, "number of time frames", 0);
+      long nf = 0;
+      if (lf >= 0 && f.scalar("number of time frames", 0, nf))
+        {
+          for (const char* k : { "image duration (sec)", "image relative start time (sec)", "data offset in bytes", "image scaling factor" })
+            {
+              out.push_back({ with_extra({ std::string(k) + "[" + std::to_string(nf) + "] := 0" + (std::string(k) == "image scaling factor" ? "" : "") }),
+                              std::string("must-accept '") + k + "' given for the last declared time frame" });
+              for (long beyond : { nf + 1, nf + 2 })
+                out.push_back({ with_extra({ std::string(k) + "[" + std::to_string(beyond) + "] := 0" }),
+                                std::string("must-reject '") + k + "[" + std::to_string(beyond) + "]' given, but 'number of time frames := " + std::to_string(nf) + "'" });
+            }
+        }
+      for (long beyond : { 2L, 3L })
+        out.push_back({ with_extra({ "energy window upper level[" + std::to_string(beyond) + "] := 650" }),
+                        "must-reject 'energy window upper level[" + std::to_string(beyond) + "]' given for a header with one energy window" });
+      out.push_back({ with_extra({ "number of energy windows := 2", "energy window lower level[2] := 350", "energy window upper level[2] := 650" }),
+                      "must-accept two energy windows declared and given" });
+      out.push_back({ with_extra({ "number of energy windows := 2", "energy window lower level[3] := 350" }),
+                      "must-reject 'energy window lower level[3]' given, but 'number of energy windows := 2'" });
+    }
+  if (seed.name == "spect-sample")
+    {
+      long nv = 0;
+      const int lo = find_key_line(lines, "orbit", 0), lr = find_key_line(lines, "radius", 0);
+      if (lo >= 0 && lr >= 0 && f.scalar("number of projections", 0, nv) && nv > 0 && nv < 1000)
+        {
+          std::vector<long> radii(nv, 150);
+          auto spect = [&](const std::vector<long>& v) {
+            std::vector<std::string> l = lines;
+            l[lo] = "orbit := Non-circular";
+            l[lr] = "Radii := " + fmt_list(v);
+            return join_lines(l);
+          };
+          out.push_back({ spect(radii), "must-accept one radius per projection" });
+          for (const std::vector<long>& v : other_lengths(radii, rng, false))
+            out.push_back({ spect(v), "must-reject 'Radii' has " + std::to_string(v.size()) + " entries, 'number of projections := " + std::to_string(nv) + "'" });
+          const int lp = find_key_line(lines, "number of projections", 0);
+          if (lp >= 0)
+            for (long d : { -1L, 1L })
+              {
+                std::vector<std::string> l = split_lines(spect(radii));
+                l[lp] = key_part(lp) + std::to_string(nv + d);
+                out.push_back({ join_lines(l), "must-reject 'number of projections := " + std::to_string(nv + d) + "' with " + std::to_string(nv) + " radii" });
+              }
+        }
+    }
+  return out;
+}
+
+// the expectation attached to a structured input turns an unexpected verdict into a finding
+static std::string
+apply_expectation(const std::string& expect, const std::string& verdict)
+{
+  if (expect.empty() || verdict.compare(0, 12, "inconsistent") == 0)
+    return verdict;
+  const bool accepted = verdict.compare(0, 8, "accepted") == 0 && verdict.compare(0, 16, "accepted-lazily-") != 0 && verdict.compare(0, 13, "accepted-but-") != 0;
+  const bool rejected = verdict.compare(0, 8, "rejected") == 0;
+  if (expect.compare(0, 11, "must-reject") == 0 && accepted)
+    return "inconsistent accepted a header with exactly one inconsistent size-bearing field:" + expect.substr(11) + " (" + verdict + ")";
+  if (expect.compare(0, 11, "must-accept") == 0 && rejected)
+    return "inconsistent rejected a consistent header:" + expect.substr(11) + " (" + verdict + ")";
+  return verdict;
+}
+
 // ------------------------------------------------------------------------------------------------ running
 static volatile int g_progress_fd = -1;
 
@@ -834,6 +1396,8 @@ struct Work
   Target t;
   std::string seedname;
   std::string text;
+  std::string expect; // "", "must-reject <what>", "must-accept <what>" (structured family)
+  bool facts = false; // compare the accepted object with an independent reading of the sizes in the header text
 };
 
 int
@@ -854,7 +1418,7 @@ main(int argc, char** argv)
       make_corpus(workdir, rng); // data files for the headers
       signal(SIGALRM, on_alarm);
       alarm(20);
-      const std::string verdict = run_target(t, slurp(argv[4]), workdir);
+      const std::string verdict = apply_expectation(argc > 5 ? std::string(argv[5]) : std::string(), run_target(t, slurp(argv[4]), workdir, true));
       std::printf("VERDICT %s\n", verdict.c_str());
       return verdict.compare(0, 12, "inconsistent") == 0 ? 3 : 0;
     }
@@ -887,22 +1451,43 @@ main(int argc, char** argv)
             continue;
           for (int k = 0; k < T_COUNT; ++k)
             if (n.substr(0, us) == target_name[k])
-              work.push_back({ static_cast<Target>(k), "corpus/" + n, slurp(std::string(corpus) + "/" + n) });
+              work.push_back({ static_cast<Target>(k), "corpus/" + n, slurp(std::string(corpus) + "/" + n), "", true });
         }
     }
   for (const Seed& s : seeds)
     {
       const int nrandom = thorough ? 6000 : (s.t == T_KEYPARSER ? 400 : 350);
       const int nbytes = thorough ? 400 : 30;
+      // the facts oracle is for headers whose reading is unambiguous: PET projection data and images (not the SPECT / Siemens samples)
+      const bool facts = (s.t == T_PDFS && s.name.compare(0, 3, "pd_") == 0) || s.t == T_IMAGE;
+      for (const Structured& st : structured_inputs(s, rng))
+        work.push_back({ s.t, s.name, st.text, st.expect, facts });
       for (const std::string& text : inputs_for_seed(s, rng, nrandom, nbytes))
-        work.push_back({ s.t, s.name, text });
+        work.push_back({ s.t, s.name, text, "", facts });
     }
 
+  // The work list is cut into NWORKERS contiguous slices, each handled by its own supervisor process (which forks one child
+  // per batch as before and writes its own part of the result file); the parts are concatenated in order afterwards.
+  const int NWORKERS = 8;
+  std::fclose(res);
+  std::vector<pid_t> supervisors;
+  std::fflush(nullptr);
+  for (int w = 0; w < NWORKERS; ++w)
+    {
+      const pid_t sp = fork();
+      if (sp != 0)
+        {
+          supervisors.push_back(sp);
+          continue;
+        }
+      // ---------------- supervisor w
+      const std::size_t lo = work.size() * w / NWORKERS, hi = work.size() * (w + 1) / NWORKERS;
+      FILE* res = std::fopen((std::string(argv[5]) + ".part" + std::to_string(w)).c_str(), "w");
   long killed = 0, inconsistent = 0;
-  std::size_t next = 0;
-  const std::size_t batch = 400;
-  const std::string errfile = workdir + "/child.stderr";
-  while (next < work.size())
+  std::size_t next = lo;
+  const std::size_t batch = 200;
+  const std::string errfile = workdir + "/child" + std::to_string(w) + ".stderr";
+  while (next < hi)
     {
       int fd[2];
       if (pipe(fd) != 0)
@@ -922,7 +1507,7 @@ main(int argc, char** argv)
           if (nfd >= 0)
             dup2(nfd, 0);
           signal(SIGALRM, on_alarm);
-          for (std::size_t k = next; k < std::min(work.size(), next + batch); ++k)
+          for (std::size_t k = next; k < std::min(hi, next + batch); ++k)
             {
               // keep only what the library prints for the current input
               if (efd >= 0)
@@ -935,7 +1520,7 @@ main(int argc, char** argv)
               if (write(fd[1], msg.c_str(), msg.size()) < 0)
                 {}
               alarm(thorough ? 30 : 15);
-              std::string verdict = run_target(work[k].t, work[k].text, workdir);
+              std::string verdict = apply_expectation(work[k].expect, run_target(work[k].t, work[k].text, workdir, work[k].facts));
               alarm(0);
               // UBSan signed-integer-overflow reports are not fatal (see checks/c17.py): tag the verdict
               if (slurp(errfile).find("signed integer overflow") != std::string::npos)
@@ -971,6 +1556,7 @@ main(int argc, char** argv)
                   ++inconsistent;
                   const std::string inputfile = workdir + "/inconsistent_" + target_name[w.t] + "_" + std::to_string(ended) + ".txt";
                   spit(inputfile, w.text);
+                  spit(inputfile + ".expect", w.expect);
                   std::fprintf(res, "CASE %s %ld %s | seed-header=%s input=%s\n", target_name[w.t], ended, verdict.c_str(), w.seedname.c_str(), inputfile.c_str());
                 }
               else
@@ -991,9 +1577,48 @@ main(int argc, char** argv)
           next = begun + 1;
         }
       else
-        next = std::min(work.size(), next + batch);
+        next = std::min(hi, next + batch);
     }
-  std::fprintf(res, "DONE inputs=%zu killed=%ld inconsistent=%ld\n", work.size(), killed, inconsistent);
+      std::fprintf(res, "PART inputs=%zu killed=%ld inconsistent=%ld\n", hi - lo, killed, inconsistent);
+      std::fclose(res);
+      _exit(0);
+    }
+  bool all_ok = true;
+  for (pid_t sp : supervisors)
+    {
+      int st = 0;
+      waitpid(sp, &st, 0);
+      if (!(WIFEXITED(st) && WEXITSTATUS(st) == 0))
+        all_ok = false;
+    }
+  res = std::fopen(argv[5], "w");
+  long killed = 0, inconsistent = 0, structured = 0, parts = 0;
+  for (const Work& w : work)
+    if (!w.expect.empty())
+      ++structured;
+  for (int w = 0; w < NWORKERS; ++w)
+    {
+      const std::string part = std::string(argv[5]) + ".part" + std::to_string(w);
+      for (const std::string& l : split_lines(slurp(part)))
+        {
+          if (l.compare(0, 5, "PART ") == 0)
+            {
+              ++parts;
+              long a = 0, b = 0, c = 0;
+              if (std::sscanf(l.c_str(), "PART inputs=%ld killed=%ld inconsistent=%ld", &a, &b, &c) == 3)
+                {
+                  killed += b;
+                  inconsistent += c;
+                }
+            }
+          else
+            std::fprintf(res, "%s\n", l.c_str());
+        }
+      unlink(part.c_str());
+    }
+  // a supervisor that did not finish leaves the DONE line out: the check reports the run as incomplete
+  if (all_ok && parts == NWORKERS)
+    std::fprintf(res, "DONE inputs=%zu killed=%ld inconsistent=%ld structured=%ld\n", work.size(), killed, inconsistent, structured);
   std::fclose(res);
   return 0;
 }
